@@ -1203,6 +1203,10 @@ public:
     // Assign ghost variables to ref
     ghost_variables_t ref_gvars = get_or_insert_gvars(ref);
 
+    // ref is overwritten: whatever was known about its old value
+    // (e.g., being null) does not hold for the new reference.
+    ref_gvars.forget(m_base_dom);
+
     // initialize ghost variables
     if (ref_gvars.has_offset_and_size()) {
       ref_gvars.get_offset_and_size().init(m_base_dom,
